@@ -25,6 +25,7 @@ def check(repo: Repo, rep, tier):
     same_type(repo, rep)
     clone_def(repo, rep)
     positional_map(repo, rep)
+    emit_complete(repo, rep)
     from .C01 import default_guard
     from .C14 import site_key
 
@@ -396,3 +397,72 @@ def positional_map(repo: Repo, rep, prop="C05"):
                 f"{c.name}.arguments() reports every argument by name but the class has no positional_names: `x == snapshot({c.name.replace('Adapter', '')}(1, 2))` is compared as if both positional arguments were removed",
                 construct=f"{c.name}:missing",
             )
+
+
+# (module, change kind, category) -> what is lost when no reachable emission site of that shape exists any more.
+# Frozen from the 19 emission sites confirmed by reading (Appendix A.1); keyed by module, so moving an emission into a helper of the
+# same module changes nothing.
+EMIT_TABLE = {
+    ("_adapter/value_adapter.py", "Replace", "create"): "an empty leaf is never filled",
+    ("_adapter/value_adapter.py", "Replace", "fix"): "a wrong leaf value is never repaired",
+    ("_adapter/value_adapter.py", "Replace", "update"): "a leaf whose text differs from the generated code is never normalised",
+    ("_adapter/sequence_adapter.py", "Delete", "fix"): "elements that vanished from a list/tuple stay in the snapshot",
+    ("_adapter/sequence_adapter.py", "ListInsert", "fix"): "new elements of a list/tuple are never added",
+    ("_adapter/dict_adapter.py", "Delete", "fix"): "keys that vanished from a dict stay in the snapshot",
+    ("_adapter/dict_adapter.py", "DictInsert", "fix"): "new keys of a dict are never added",
+    ("_adapter/generic_call_adapter.py", "Delete", "*"): "arguments that vanished / became default stay in the call",
+    ("_adapter/generic_call_adapter.py", "CallArg", "fix"): "new arguments of a dataclass-like value are never added",
+    ("_inline_snapshot.py", "CallArg", "create"): "an argument-less snapshot() is never filled",
+    ("_snapshot/collection_value.py", "Delete", "trim"): "members that were never tested with `in` are never trimmed",
+    ("_snapshot/collection_value.py", "ListInsert", "fix"): "a member that is missing from `x in snapshot([...])` is never added",
+    ("_snapshot/collection_value.py", "Replace", "update"): "members of an `in` snapshot are never normalised",
+    ("_snapshot/dict_value.py", "Delete", "trim"): "keys of snapshot()[key] that were never accessed are never trimmed",
+    ("_snapshot/dict_value.py", "DictInsert", "create"): "a new key of snapshot()[key] is never created",
+    ("_snapshot/min_max_value.py", "Replace", "fix"): "a violated bound is never repaired",
+    ("_snapshot/min_max_value.py", "Replace", "trim"): "a slack bound is never tightened",
+    ("_snapshot/min_max_value.py", "Replace", "update"): "a bound whose text differs is never normalised",
+    ("_snapshot/undecided_value.py", "Replace", "update"): "a never-compared snapshot is never normalised",
+}
+
+
+def emit_complete(repo: Repo, rep):
+    rep.rule(
+        "R-EMIT-COMPLETE",
+        "completeness of the change producers: for each (module, change kind, category) of the table frozen from the emission sites confirmed by reading, "
+        "at least one reachable emission site of that shape still exists in the module (a conditional label `update if old == new else fix` counts for both); "
+        "DictValue._get_changes still recurses into the _get_changes() of its sub-snapshots.  Soundness rules (R-FLAG-LABEL ...) cannot notice a producer "
+        "that silently stopped producing: approved categories would then repair nothing",
+    )
+    have = set()
+    for s in emission_sites(repo):
+        rel = s.func.module.rel
+        for label, dnode, how in flag_values(s):
+            if how == "ifexp":
+                e = s.args.get("flag")
+                if isinstance(e, ast.Name):
+                    e = def_value(dnode, e.id)
+                for x in ast.walk(e) if e is not None else []:
+                    if isinstance(x, ast.Constant) and isinstance(x.value, str):
+                        have.add((rel, s.kind, x.value))
+                have.add((rel, s.kind, "*"))
+            elif label:
+                have.add((rel, s.kind, label))
+                have.add((rel, s.kind, "*"))
+    for (rel, kind, flag), lost in EMIT_TABLE.items():
+        m = repo.modules.get(rel)
+        if m is None:
+            rep.undecided("R-EMIT-COMPLETE", f"module {rel} vanished")
+            continue
+        if (rel, kind, flag) in have:
+            rep.ok("R-EMIT-COMPLETE", m, None, f"{kind} `{flag}` is still produced", site=f"src/inline_snapshot/{rel}: {kind}/{flag}")
+        else:
+            anyf = next((f for f in repo.pkg_funcs() if f.module is m), None)
+            rep.violation("R-EMIT-COMPLETE", anyf, anyf.node if anyf else None, f"{rel} no longer produces a {kind} change of category `{flag}`: {lost}", construct=f"{rel}:{kind}:{flag}")
+    # recursion of the dict sub-snapshots
+    dv = repo.find_func("_snapshot/dict_value.py", "DictValue._get_changes")
+    if dv is not None:
+        rec = [c for c in body_nodes(dv.node) if isinstance(c, ast.Call) and isinstance(c.func, ast.Attribute) and c.func.attr == "_get_changes"]
+        if rec:
+            rep.ok("R-EMIT-COMPLETE", dv, rec[0], "sub-snapshots contribute their own changes")
+        else:
+            rep.violation("R-EMIT-COMPLETE", dv, dv.node, "DictValue._get_changes no longer collects the changes of its sub-snapshots: nothing below snapshot()[key] is ever created / fixed", construct="dict-value-recursion")
